@@ -13,7 +13,10 @@ Proj(st) == [n |-> Len(st.atoms), pos |-> [i \in 1..Len(st.atoms) |-> st.atoms[i
              calcAtoms |-> st.calcAtoms, calcRes |-> st.calcRes, added |-> st.added, deleted |-> st.deleted,
              pdelta |-> st.pdelta, nexch |-> st.nexch, labels |-> st.labels, presel |-> st.presel, evals |-> st.evals]
 
-RInit == Init /\ hist = << [a |-> "init", name |-> "", subs |-> <<>>, verdict |-> "", s |-> Proj(s)] >>
+\* (the set-up in which two exchange moves act in one trial is bound in the other direction only -- the recorded runs with a
+\*  "del2" entry, qscen.py: the replay harness scripts one exchange element per plain composite)
+Replayed(su) == ~(su.mobj["m1"].kind = "exch" /\ su.mobj["m2"].kind = "exch")
+RInit == Init /\ Replayed(setup) /\ hist = << [a |-> "init", name |-> "", subs |-> <<>>, verdict |-> "", s |-> Proj(s)] >>
 
 \* (restarts are bound in the other direction -- recorded runs that start from a rebuilt simulation, qscen.restart_prologue --
 \*  because a rebuilt table no longer shares move objects between its entries the way these behaviours' set-ups do)
